@@ -624,6 +624,8 @@ func (o c17Op) String() string {
 		return fmt.Sprintf("Addn(%s,%d)", c17AlphaNames[o.A], o.N)
 	case "fill":
 		return "AddFreshUntilReset"
+	case "fillto":
+		return "AddFreshUntilOneBeforeThePeriodEnds"
 	}
 	return "EnsureCapacity(" + [...]string{"len+1", "2*len", "len", "len/2", "0"}[o.N] + ")"
 }
@@ -640,6 +642,9 @@ func c17Ops() []c17Op {
 	}
 	ops = append(ops, c17Op{"addn", 2, -1}, c17Op{"addn", 4, 0})
 	ops = append(ops, c17Op{"fill", 0, 0})
+	// stops one recorded addition short of the sample period, so that the NEXT operation of a sequence is the call on
+	// the period boundary (a saturated hash there adds nothing; a fresh one must trigger the reset)
+	ops = append(ops, c17Op{"fillto", 0, 0})
 	for m := 0; m < 5; m++ {
 		ops = append(ops, c17Op{"cap", 0, m})
 	}
@@ -787,6 +792,23 @@ func (r *c17Run) apply(op c17Op, check bool) {
 					break
 				}
 			} else if r.stage = "Add"; sk.Add(c17Filler(j)) {
+				break
+			}
+		}
+	case "fillto":
+		limit := 4*int(sk.SampleSize) + 64
+		for j := 0; sk.Additions+1 < sk.SampleSize; j++ {
+			if j == limit {
+				r.incomplete = true
+				break
+			}
+			// fillers distinct from those of "fill" (which may have run earlier in the sequence and saturated its own)
+			h := c17Filler(j + 1<<20)
+			if check {
+				if r.add(h, -1) || r.bad != nil {
+					break
+				}
+			} else if r.stage = "Add"; sk.Add(h) {
 				break
 			}
 		}
